@@ -223,6 +223,20 @@ theorem rx_spec (sw : Sw) (f : Frame) (inPort : Nat) (wire : Bytes) (hf : f.WF) 
            else sw, rxOuts sw f inPort wire) :=
   rxWire_spec sw hr f hf inPort wire
 
+/-- … and for a packet object handed to `rx_packet` without its wire bytes (`packet_data = None`): the receive byte
+counter moves by the length of the packet's wire form, and a table miss sends that wire form -/
+theorem rx_obj_spec (sw : Sw) (f : Frame) (inPort : Nat) (hf : f.WF) (hr : RulesOk sw.table) :
+    rxObj {} sw f inPort =
+      .ok (if accepts sw f inPort then
+             { sw with stats := tally (bumpRx sw inPort (serF f).length).stats (rxObjOuts sw f inPort) }
+           else sw, rxObjOuts sw f inPort) :=
+  rxObj_spec sw hr f hf inPort
+
+/-- port 4 has no flow entry: the 45-byte frame is counted and reported to the controller in full -/
+example : (rxObj {} exSw exFrame 4).map (fun r => (r.1.stats.map fun s => (s.no, s.rxP, s.rxB), r.2.map fun o => match o with
+      | .packetIn p r d t => (p, r, d.length, t) | _ => (0, 0, 0, 0)))
+    = .ok ([(1, 0, 0), (2, 0, 0), (3, 0, 0), (4, 1, 45)], [(4, 0, 45, 45)]) := by decide +kernel
+
 example : accepts exSw exFrame 3 = true ∧ accepts exSw exFrame 9 = false ∧
     accepts { exSw with ports := [⟨1, [], 2 + 4, 0⟩] } exFrame 1 = false := by decide
 
